@@ -134,20 +134,20 @@ theorem simple_iff (c : String) : simple c = true ↔ c ≠ "" ∧ c ≠ "." ∧
 
 /-- Resolution is lexical when every intermediate component is an ordinary name naming a real
 directory; the final component may be anything when it is not followed, anything but a link when it is. -/
-theorem walk_lex (w : World) (fuel : Nat) (fl : Bool) : ∀ (comps : List String) (cur : Path),
+theorem walkSeg_lex (w : World) (fl : Bool) : ∀ (comps : List String) (cur : Path),
     (∀ c ∈ comps, simple c = true) →
     (∀ pre, pre <+: comps → pre ≠ comps → pre ≠ [] → isDir (find w (cur ++ pre)) = true) →
     (fl = false ∨ isLink (find w (cur ++ comps)) = false) →
-    walk w fuel cur comps fl = .ok (cur ++ comps) := by
+    walkSeg w fl cur comps = .done (.ok (cur ++ comps)) := by
   intro comps
   induction comps with
-  | nil => intro cur _ _ _; simp [walk]
+  | nil => intro cur _ _ _; simp [walkSeg]
   | cons c rest ih =>
     intro cur hs hd hl
     have hc := (simple_iff c).mp (hs c (by simp))
     have h1 : trivialComp c = false := by simp [trivialComp, hc.1, hc.2.1]
     have h2 : (c == "..") = false := by simp [hc.2.2]
-    rw [walk]
+    rw [walkSeg]
     simp only [h1, h2, Bool.false_eq_true, if_false]
     by_cases hr : rest = []
     · subst hr
@@ -156,7 +156,7 @@ theorem walk_lex (w : World) (fuel : Nat) (fl : Bool) : ∀ (comps : List String
       | some n =>
         simp only
         cases hk : n.kind with
-        | dir => simp [walk]
+        | dir => simp [walkSeg]
         | file => simp
         | link =>
           rcases hl with hl | hl
@@ -174,6 +174,14 @@ theorem walk_lex (w : World) (fuel : Nat) (fl : Bool) : ∀ (comps : List String
             simpa using this)
           (by simpa using hl)
         simpa using this
+
+theorem walk_lex (w : World) (fuel : Nat) (fl : Bool) (comps : List String) (cur : Path)
+    (hs : ∀ c ∈ comps, simple c = true)
+    (hd : ∀ pre, pre <+: comps → pre ≠ comps → pre ≠ [] → isDir (find w (cur ++ pre)) = true)
+    (hl : fl = false ∨ isLink (find w (cur ++ comps)) = false) :
+    walk w fuel cur comps fl = .ok (cur ++ comps) := by
+  unfold walk
+  rw [walkSeg_lex w fl comps cur hs hd hl]
 
 /-- all prefixes of `d` (including `[]` and `d`) are directories and all components ordinary names -/
 def LexDir (w : World) (d : Path) : Prop :=
@@ -284,10 +292,10 @@ theorem find_erase_touch (w : World) (d : Path) (nm : String) (p : Path) :
 
 /-! ### resolution when no component is a symlink: it fails or every directory on the way is real -/
 
-theorem walk_dich (w : World) (fuel : Nat) : ∀ (comps : List String) (cur : Path),
+theorem walkSeg_dich (w : World) : ∀ (comps : List String) (cur : Path),
     (∀ c ∈ comps, simple c = true) →
     (∀ pre, pre <+: comps → pre ≠ comps → pre ≠ [] → isLink (find w (cur ++ pre)) = false) →
-    (∃ e, walk w fuel cur comps false = .error e) ∨
+    (∃ e, walkSeg w false cur comps = .done (.error e)) ∨
     (∀ pre, pre <+: comps → pre ≠ comps → pre ≠ [] → isDir (find w (cur ++ pre)) = true) := by
   intro comps
   induction comps with
@@ -306,7 +314,7 @@ theorem walk_dich (w : World) (fuel : Nat) : ∀ (comps : List String) (cur : Pa
       · simp at ht; subst ht; exact absurd e hne
     · have hre : rest.isEmpty = false := by simpa using hr
       have hlc := hl [c] (by simp) (by simp [hr]) (by simp)
-      rw [walk]
+      rw [walkSeg]
       simp only [h1, h2, Bool.false_eq_true, if_false]
       cases hf : find w (cur ++ [c]) with
       | none => left; simp [hre]
@@ -331,6 +339,15 @@ theorem walk_dich (w : World) (fuel : Nat) : ∀ (comps : List String) (cur : Pa
               · subst htn; simp [hf, isDir, hk]
               · have := h t ht (by simpa using hne) htn
                 simpa using this
+
+theorem walk_dich (w : World) (fuel : Nat) (comps : List String) (cur : Path)
+    (hs : ∀ c ∈ comps, simple c = true)
+    (hl : ∀ pre, pre <+: comps → pre ≠ comps → pre ≠ [] → isLink (find w (cur ++ pre)) = false) :
+    (∃ e, walk w fuel cur comps false = .error e) ∨
+    (∀ pre, pre <+: comps → pre ≠ comps → pre ≠ [] → isDir (find w (cur ++ pre)) = true) := by
+  rcases walkSeg_dich w comps cur hs hl with ⟨e, he⟩ | h
+  · left; exact ⟨e, by unfold walk; rw [he]⟩
+  · exact Or.inr h
 
 /-- no prefix of `par` (the directories on the way to an entry of `par`) is a symbolic link -/
 def NoLinkUpTo (w : World) (par : Path) : Prop := ∀ q, q <+: par → isLink (find w q) = false
